@@ -190,7 +190,7 @@ def case_pair(case):
     feats.add("owned" if variant != "u" else "unowned")
     feats.add("depth=%d" % depth)
     if dflt != 0:
-        feats.add("default=%d" % dflt)
+        feats.add("default=%s" % dflt)
     diff = set(ca.items()) ^ set(cb.items())
     npts = len({p for p, _ in diff})
     if exp:
@@ -280,7 +280,7 @@ def shard_pairs(acc, shard, nshards, params):
     dimsp, alpha, variants, dflt, extras, deadline = params
     u, depth = universe(dimsp, alpha)
     drive(acc, "pair", case_pair, _pairs(u, depth, variants, dflt, extras), shard, nshards,
-          family="pairs_%s[%s,default=%d%s]" % (uname(dimsp, alpha), "/".join(variants), dflt,
+          family="pairs_%s[%s,default=%s%s]" % (uname(dimsp, alpha), "/".join(variants), dflt,
                                                 ",+ne+reversed+roots" if extras else ""), deadline=deadline)
 
 
@@ -379,7 +379,7 @@ def case_single(case):
     feats.add("owned" if variant != "u" else "unowned")
     feats.add("depth=%d" % depth)
     if dflt != 0:
-        feats.add("default=%d" % dflt)
+        feats.add("default=%s" % dflt)
     if not C:
         feats.add("content_empty")
     obj, root, owner = build(spec, depth, variant, dflt)
@@ -456,7 +456,7 @@ def shard_single(acc, shard, nshards, params):
     u, depth = universe(dimsp, alpha)
     cases = ((depth, s, v, dflt) for v in variants for s in u)
     drive(acc, "single", case_single, cases, shard, nshards,
-          family="single_%s[%s,default=%d]" % (uname(dimsp, alpha), "/".join(variants), dflt))
+          family="single_%s[%s,default=%s]" % (uname(dimsp, alpha), "/".join(variants), dflt))
 
 
 # ---------------------------------------------------------------------------
@@ -682,7 +682,7 @@ def shard_edited(acc, shard, nshards, params):
                     if not ref_content((spec[last],), 2, dflt):
                         continue
                 yield (spec, how, dflt)
-    drive(acc, "edited", case_edited, gen(), shard, nshards, family="edited-after-construction[T2(2,2,%s),default=%d]" % (alpha, dflt))
+    drive(acc, "edited", case_edited, gen(), shard, nshards, family="edited-after-construction[T2(2,2,%s),default=%s]" % (alpha, dflt))
 
 
 # ---------------------------------------------------------------------------
@@ -728,7 +728,7 @@ def case_copies(case):
     base.add("owned" if variant != "u" else "unowned")
     base.add("depth=%d" % depth)
     if dflt != 0:
-        base.add("default=%d" % dflt)
+        base.add("default=%s" % dflt)
     if bdflt != dflt:
         base.add("rank_default_differs_from_fiber_default")
     cur = core.CUR
@@ -902,7 +902,7 @@ def shard_copies(acc, shard, nshards, params):
     u, depth = universe(dimsp, alpha)
     cases = ((depth, s, v, dflt, bdflt) for v in variants for s in u)
     drive(acc, "copies", case_copies, cases, shard, nshards,
-          family="copies_%s[%s,default=%d,fibers built with default %d]" % (uname(dimsp, alpha), "/".join(variants), dflt, bdflt),
+          family="copies_%s[%s,default=%s,fibers built with default %s]" % (uname(dimsp, alpha), "/".join(variants), dflt, bdflt),
           deadline=deadline)
 
 
@@ -922,9 +922,11 @@ def run(ctx):
     import time
     q = ctx.quick
     # (dims, alphabet, variants, leaf default, extras)
-    singles = [((4,), A12, UT, 0), ((2, 2), A12, UT, 0), ((3,), A7, UT, 7), ((2, 2), A7, UT, 7),
+    singles = [((3,), "-01", ("t",), None), ((2, 2), "-01", ("t",), None),      # leaf default None: a stored 0 is a value
+               ((4,), A12, UT, 0), ((2, 2), A12, UT, 0), ((3,), A7, UT, 7), ((2, 2), A7, UT, 7),
                ((2, 2, 2), A1, U if q else UT, 0)]
-    pairs = [((3,), A12, ("tUl", "tUU"), 0, 1), ((2, 2), A1, ("tUl", "tUU"), 0, 1), ((3,), A7, ("tUU",), 7, 1),
+    pairs = [((3,), "-01", ("t",), None, 1), ((2, 2), "-01", ("t",), None, 0),
+             ((3,), A12, ("tUl", "tUU"), 0, 1), ((2, 2), A1, ("tUl", "tUU"), 0, 1), ((3,), A7, ("tUU",), 7, 1),
              ((3,), A7, ALLV, 7, 1), ((3,), A12, ALLV, 0, 1), ((4,), A12, UT, 0, 1),
              ((2, 2), A70, UT, 7, 1), ((2, 2), A1, ALLV, 0, 1), ((2, 2), A12, UT, 0, 0),
              ((2, 2, 1), A1, UT if q else ALLV, 0, 0)]
@@ -945,15 +947,15 @@ def run(ctx):
                          "or holds any member of the next level's universe (so empty and default-only sub-fibers occur)",
         "variants": "u = unowned fibers; t = two tensors with equal rank ids, declared shapes differing in the last rank; "
                     "ut = unowned fiber against the root of a tensor; extras = also !=, reversed order, owned roots",
-        "pairs": ["all ordered pairs of %s variants=%s default=%d extras=%d" % (uname(d, a), "/".join(v), df, ex)
+        "pairs": ["all ordered pairs of %s variants=%s default=%s extras=%d" % (uname(d, a), "/".join(v), df, ex)
                   for d, a, v, df, ex in pairs] +
-                 ["all ordered pairs of %s variants=%s default=%d extras=%d (time cap %ds)" % (uname(d, a), "/".join(v), df, ex, cap)
+                 ["all ordered pairs of %s variants=%s default=%s extras=%d (time cap %ds)" % (uname(d, a), "/".join(v), df, ex, cap)
                   for d, a, v, df, ex, cap in capped],
         "neighbours": "every tree of T3(2,2,2;-d1) (10201) against each tree one edit away, variants=%s" % "/".join(neigh[4]),
         "triples": "all ordered triples of F1(3;%s): reflexive, symmetric, transitive on the library's own verdicts" % trip[1],
-        "single": ["every tree of %s variants=%s default=%d: isEmpty, Payload.isEmpty, countValues, nonEmpty, deepcopy, x == x"
+        "single": ["every tree of %s variants=%s default=%s: isEmpty, Payload.isEmpty, countValues, nonEmpty, deepcopy, x == x"
                    % (uname(d, a), "/".join(v), df) for d, a, v, df in singles],
-        "copies": ["every tree of %s variants=%s leaf default=%d (leaf fibers constructed with default %d)%s: each of "
+        "copies": ["every tree of %s variants=%s leaf default=%s (leaf fibers constructed with default %d)%s: each of "
                    "copy.deepcopy / copy() / copy(preserve_owner=False) applied to the root and to every live sub-fiber of a "
                    "freshly built original (copy(preserve_owner=True): root only), Tensor.fromFiber of every live part of a tensor, "
                    "Tensor deepcopy, Tensor.fromFiber(ids, live root) with and without a larger shape, setRoot(live root) "
